@@ -58,6 +58,7 @@ def install(m):
     def vassert(m, alt, fr, ins, args, work):
         c = m.bool_of(args[0])
         msg = args[1] if len(args) > 1 else ""
+        m.asserted.add(msg)
         if c is True:
             return None
         m.violation("assert", AND(alt.guard, NOT(c)), msg, ins["pos"] if ins else "")
@@ -75,6 +76,28 @@ def install(m):
     @reg("$verifReach")
     def vreach(m, alt, fr, ins, args, work):
         m.reached[args[0]] = OR(m.reached.get(args[0], False), alt.guard)
+        return None
+
+    @reg("$verifSymbolic")
+    def vsym(m, alt, fr, ins, args, work):
+        return True
+
+    @reg("$verifPush")
+    def vpush(m, alt, fr, ins, args, work):
+        from interp import BoundExceeded
+        chv, v = args
+        for g, ch in alts_of(chv):
+            if ch is None:
+                continue
+            cap, buf, closed, busy = m.hget(alt, ch.obj)
+            nb = []
+            for gb, b in alts_of(buf):
+                if len(b) >= cap:
+                    if m.feasible(alt.guard, g, gb):
+                        raise BoundExceeded("harness queue overflow (capacity %d)" % cap)
+                    continue
+                nb.append((gb, merge(g, b + (v,), b) if g is not True else b + (v,)))
+            m.hset(alt, ch.obj, (cap, mk_union(nb), closed, busy))
         return None
 
     @reg("$verifAdd")
@@ -113,12 +136,12 @@ def install(m):
                     raise _Panicked()
                 m.sym_panic(alt, g, "close of nil channel", pos)
                 continue
-            cap, buf, closed = m.hget(alt, ch.obj)
+            cap, buf, closed, busy = m.hget(alt, ch.obj)
             if g is True and closed is True:
                 m.do_panic(alt, Opaque("close of closed channel"), pos)
                 raise _Panicked()
             m.sym_panic(alt, AND(g, closed), "close of closed channel", pos)
-            m.hset(alt, ch.obj, (cap, buf, OR(closed, g)))
+            m.hset(alt, ch.obj, (cap, buf, OR(closed, g), busy))
         return None
 
     # ------------------------------------------------------------------ sync.Mutex / RWMutex
@@ -197,6 +220,32 @@ def install(m):
         m.sym_panic(alt, bad, "sync: RUnlock of unlocked RWMutex", ins["pos"] if ins else "")
         m.store(alt, args[0], (w, lift1(r, lambda x: x - 1)))
         return None
+
+    # Scheduling-point reduction (Lipton): releases are left movers - executing them right after the
+    # thread's previous operation loses no behaviour; a read-lock taken while no writer holds or can
+    # hold the lock in any merged alternative (writer field concretely 0) commutes with everything
+    # except a writer's Lock, which still sees the reader count.
+    always = lambda m, alt, args: True
+    m.quiet["(*sync.Mutex).Unlock"] = always
+    m.quiet["(*sync.RWMutex).Unlock"] = always
+    m.quiet["(*sync.RWMutex).RUnlock"] = always
+    m.quiet["(*sync.WaitGroup).Done"] = always
+
+    def rlock_quiet(m, alt, args):
+        p = args[0]
+        if type(p) is not Ptr:
+            return False
+        st = m.load(alt, p)
+        return type(st) is tuple and st[0] == 0 and type(st[0]) is int
+    m.quiet["(*sync.RWMutex).RLock"] = rlock_quiet
+
+    def once_quiet(m, alt, args):
+        p = args[0]
+        if type(p) is not Ptr:
+            return False
+        st = m.load(alt, p)
+        return type(st) is int and st == 2
+    m.quiet["(*sync.Once).Do"] = once_quiet
 
     # ------------------------------------------------------------------ sync.WaitGroup
     def wg_add(m, alt, p, n, pos):
@@ -368,8 +417,8 @@ def install(m):
         if do is False:
             return
         m.hset(alt, obj, (kind, parent, done, merge(do, errv, err), children, key, val))
-        cap, buf, closed = m.hget(alt, done.obj)
-        m.hset(alt, done.obj, (cap, buf, OR(closed, do)))
+        cap, buf, closed, busy = m.hget(alt, done.obj)
+        m.hset(alt, done.obj, (cap, buf, OR(closed, do), busy))
         for ch in children:
             cancel_ctx(m, alt, ch, errv, do)
 
@@ -382,7 +431,7 @@ def install(m):
     @reg("context.WithCancel")
     def ctx_withcancel(m, alt, fr, ins, args, work):
         pobj = root_cancelable(m, alt, ctx_obj(m, alt, args[0]))
-        dobj = m.new_obj(alt, (0, (), False))
+        dobj = m.new_obj(alt, (0, (), False, False))
         obj = m.new_obj(alt, ("cancel", pobj, Chan(dobj), None, (), None, None))
         pk, pp, pd, perr, pch, pkey, pval = m.hget(alt, pobj)
         if pk == "cancel":
@@ -540,6 +589,30 @@ def install(m):
     @reg("strconv.FormatBool")
     def strconv_formatbool(m, alt, fr, ins, args, work):
         return lift1(args[0], lambda b: "true" if b else "false") if is_bool_conc(args[0]) else Opaque(("FormatBool", args[0]))
+
+    # ------------------------------------------------------------------ reflect (types only)
+    @reg("reflect.TypeOf")
+    def reflect_typeof(m, alt, fr, ins, args, work):
+        def f(v):
+            if v is None:
+                return None
+            return Iface("$rtype", v.t)
+        return lift1(args[0], f)
+
+    @reg(("$rtype", "Elem"))
+    def rtype_elem(m, alt, fr, ins, args, work):
+        t = m.T(args[0])
+        if "elem" not in t:
+            raise Unsupported("reflect: Elem of " + args[0])
+        return Iface("$rtype", t["elem"])
+
+    @reg(("$rtype", "Implements"))
+    def rtype_implements(m, alt, fr, ins, args, work):
+        return m.prog.implements(args[0], args[1].v)
+
+    @reg(("$rtype", "String"))
+    def rtype_string(m, alt, fr, ins, args, work):
+        return args[0]
 
     # ------------------------------------------------------------------ math/bits
     @reg("math/bits.OnesCount64")
